@@ -53,6 +53,10 @@ class Ctx:
         self.known = load_known_findings(pid)
         self.timings = {}
 
+    def reseed(self, seed):
+        self.seed = seed
+        self.rng = random.Random(seed * 1000003 + int(self.pid[1:]))
+
     # ---- bookkeeping
     def count(self, case_repr, nontrivial=True):
         self.cov["evaluations"] += 1
@@ -154,6 +158,27 @@ def prepare(ctx):
         return False
     ctx.bindir = out.strip().splitlines()[-1]
     return True
+
+
+def repo_key():
+    """sha256 over the Go sources, grammar and module files of the repository under test (working tree)."""
+    h = hashlib.sha256()
+    files = []
+    for top in ("cmd", "pkg"):
+        for f in (REPO / top).rglob("*"):
+            if f.is_file() and f.suffix in (".go", ".bnf", ".json"):
+                files.append(f)
+    for f in sorted(files) + [REPO / "go.mod", REPO / "go.sum"]:
+        try:
+            h.update(f.relative_to(REPO).as_posix().encode() + b"\0" + hashlib.sha256(f.read_bytes()).digest())
+        except OSError:
+            pass
+    return h.hexdigest()[:24]
+
+
+def baseline_repo_key():
+    p = VERIF / "harness" / "baseline_repo_key.txt"
+    return p.read_text().split()[0] if p.exists() and p.read_text().strip() else None
 
 
 # ---------------------------------------------------------------- Coq
